@@ -10,75 +10,75 @@ PY = "/venv/bin/python"
 
 CHECKS = {
     "C14": ("model_checking", "explicit-state exploration of automata products (g4-derived NFA x shipped ATN) + replay of all access strings and bounded sentences on the real lexer/parser",
-            "The lexer claim is complete for all character strings (every reachable state of the product of the grammar-derived automaton with the deserialised lexer ATN carries the same earliest-accepting-rule label); the parser claim is complete per rule (equal regular languages over token/rule names for all 35 rules, plus per-operator precedence table); all eight ATN copies, vocabularies and rule skeletons of both targets are compared element by element; real-parser verdicts are checked on every bounded sentence per rule and every single-token mutation.",
+            "The lexer claim is complete for all character strings (every reachable state of the product of the grammar-derived automaton with the deserialised lexer ATN carries the same earliest-accepting-rule label); the parser claim is complete per rule (equal regular languages over token/rule names for all 35 rules, plus per-operator precedence table); all eight ATN copies, vocabularies and rule skeletons of both targets are compared element by element; real-parser verdicts are checked on every bounded sentence per rule and every single-token mutation. Also: pairs of lexers advanced in lock step and parsers built before either runs; every exemplar token between every pair of 12 neighbour tokens; every assignment of spellings to the TAB / NEWLINE / BOOL tokens of a sentence; a control-flow check of the C++ rule functions (every case block of a switch leaves it).",
             "Trusted: ANTLR Python runtime ATNDeserializer, the g4 reader. The C++ parser is not executed (no C++ ANTLR runtime): for C++ only identity of automata, vocabularies and rule skeletons is claimed.",
             "DESIGN.md section 5 C14"),
     "C10": ("exploration", "bounded-exhaustive token-level mutation and token-soup enumeration vs g4-derived Earley oracle",
-            "Every single-token deletion, truncation, substitution, insertion and adjacent swap of base scripts covering every rule context, and every token soup up to the stated length after valid prefixes, is run through the real syntax stage, loads and (for a stratified subset plus every non-ASCII text) load; verdict, exception type and reported position are compared with a recogniser derived mechanically from blackbird.g4. Complete for the stated alphabet and bounds.",
+            "Every single-token deletion, truncation, substitution, insertion and adjacent swap of base scripts covering every rule context, and every token soup up to the stated length after valid prefixes, is run through the real syntax stage, loads and (for a stratified subset plus every non-ASCII text) load; verdict, exception type and reported position are compared with a recogniser derived mechanically from blackbird.g4. Complete for the stated alphabet and bounds. The file cases overwrite one working file per worker that has just been loaded with a valid script.",
             "Trusted: g4 reader, reference tokenizer and Earley recogniser (themselves proved equal to the shipped automata by C14). LF line ends only; message wording not inspected.",
             "DESIGN.md section 5 C10"),
     "C03": ("exploration", "bounded-exhaustive enumeration of expression token strings and literal forms vs precedence-climbing reference evaluator",
-            "All well-formed expression token strings up to the stated number of operand positions (every operand tuple, stacked unary signs, operator tuple, bracket span set, function application at every span, with and without blanks) and every numeric-literal string up to a length bound accepted by the grammar-derived lexer are evaluated by the implementation and by an independent reference (precedence climbing from the property's binding order; exact ints, IEEE doubles, cmath). Complete for the stated alphabets/bounds.",
+            "All well-formed expression token strings up to the stated number of operand positions (every operand tuple, stacked unary signs, operator tuple, bracket span set, function application at every span, with and without blanks) and every numeric-literal string up to a length bound accepted by the grammar-derived lexer are evaluated by the implementation and by an independent reference (precedence climbing from the property's binding order; exact ints, IEEE doubles, cmath). Complete for the stated alphabets/bounds. Also: boundary literals and exact integer arithmetic on them; a ** b for b in -70..70 over 9 bases; additive chains over terms of very different size; variables whose names mean something to Python / NumPy / SymPy or look like registers.",
             "Trusted: reference parser/evaluator, math/cmath, fractions. Tolerance 1e-12 x largest intermediate + sensitivity probe; out-of-domain cases dropped by the reference only.",
             "DESIGN.md section 5 C03"),
     "C05": ("exploration", "bounded-exhaustive enumeration of declarations (type x shape x parameter placement x ragged vectors x indices) with a by-construction oracle",
-            "Every scalar declaration of the type x initialiser table, every array declaration up to 4x4 (thorough 5x5) with every declared-shape variant and every subset of parameter positions (bounded for large arrays), every non-constant row-length vector, every in-range index: layout, dtype kind, shape, refusal of ragged/contradicting shapes. Complete for the stated bounds.",
+            "Every scalar declaration of the type x initialiser table, every array declaration up to 4x4 (thorough 5x5) with every declared-shape variant and every subset of parameter positions (bounded for large arrays), every non-constant row-length vector, every in-range index: layout, dtype kind, shape, refusal of ragged/contradicting shapes. Complete for the stated bounds. Also: integers beyond 2**53, string contents (non-ASCII, backslashes, other line-boundary characters), variables named like float() literals inside array rows, whole-array expressions after the declarations (variables must keep their values), declarations placed after statements and loops.",
             "Trusted: the by-construction expectation (distinct element values). dtype of arrays containing parameters not constrained.",
             "DESIGN.md section 5 C05"),
     "C06": ("exploration", "bounded-exhaustive enumeration of loop headers x bodies x contexts, differential against the textual unrolling",
-            "Every loop header (ranges incl. empty and overshooting steps, value lists in 3 bracket styles, 4 types) x every body shape x 4 contexts is loaded and compared, operation by operation (exact canonical digests), with the load of its textual unrolling; loop-variable scoping and wrong-type refusals checked for every header. Complete for the stated alphabet.",
+            "Every loop header (ranges incl. empty and overshooting steps, value lists in 3 bracket styles, 4 types) x every body shape x 4 contexts is loaded and compared, operation by operation (exact canonical digests), with the load of its textual unrolling; loop-variable scoping and wrong-type refusals checked for every header. Complete for the stated alphabet. Also: values just beside a value of the loop type; six contexts incl. earlier loops with declarations / re-declarations in between.",
             "Trusted: the unrolling transformation (string substitution of a bracketed literal) and Python range semantics.",
             "DESIGN.md section 5 C06"),
     "C11": ("exploration", "bounded-exhaustive single-fault injection into valid scripts (fault class x slot x position)",
-            "Valid prefix x valid suffix x exactly one fault from the complete menu (undefined name in every syntactic slot incl. metadata options, reserved names in every declaration form, non-integer modes of every value kind, literal and computed complex values into int/float scalars, arrays and loops, wrong-type loop values, mismatched include calls): loading must raise, and for undefined/reserved names raise BlackbirdSyntaxError with identifier, line and column.",
+            "Valid prefix x valid suffix x exactly one fault from the complete menu (undefined name in every syntactic slot incl. metadata options, reserved names in every declaration form, non-integer modes of every value kind, literal and computed complex values into int/float scalars, arrays and loops, wrong-type loop values, mismatched include calls): loading must raise, and for undefined/reserved names raise BlackbirdSyntaxError with identifier, line and column. Also: names that an included file declares; names in the body of a loop that never runs (recorded finding); every grammar-derived statement of <= 7 tokens whose modes the reference evaluates to a non-integer.",
             "Exception type constrained only where the property names it; column accepted 0- or 1-based.",
             "DESIGN.md section 5 C11"),
     "C07": ("exploration", "bounded-exhaustive enumeration of included programs x call-site patterns x directory layouts x working directories vs model inlining",
-            "Every included program over every 1-/2-/3-subset of an 8-mode universe in every order of first use with 0-2 parameters x every call-site pattern; every combination of 6 directory layouts x duplicate-include variants x 4 process working directories x 2 load-argument styles; nesting depth 1-3 with the inner subroutine also called directly before/after the outer one. Each is loaded through blackbird.load from real files and compared with the reference model's inlining. Complete for the stated menus.",
+            "Every included program over every 1-/2-/3-subset of an 8-mode universe in every order of first use with 0-2 parameters x every call-site pattern; every combination of 6 directory layouts x duplicate-include variants x 4 process working directories x 2 load-argument styles; nesting depth 1-3 with the inner subroutine also called directly before/after the outer one. Each is loaded through blackbird.load from real files and compared with the reference model's inlining. Complete for the stated menus. Also: parameter forwarding through two levels of templates in every pattern (crossed, cyclic, repeated, inside expressions) x shared / rotated / disjoint parameter names; include graphs that are not chains (diamonds, shared leaves, differently spelt paths, one path string for different files); decoy files under the same relative name in the working directory; measured-register expressions as values of an include call's keyword arguments.",
             "Trusted: reference model inlining (sorted(sub.modes)[k] -> call modes[k]). Register references inside included programs and positional arguments of include calls are not generated.",
             "DESIGN.md section 5 C07"),
     "C12": ("model_checking", "explicit-state BFS over load/loads call histories on the real module state (fork-per-history), differential against fresh-interpreter outcomes",
-            "States are the canonical content of every module-level mutable object of blackbird.*; transitions are real load/loads calls of a menu of about 60 events built to collide on names (valid scripts, templates, tdm, scripts failing at every stage incl. inside includes and inside divisions, probes whose metadata/body mention leftover names, relative loads after a change of working directory, rewrites of an included file); the state also holds process-wide numeric settings. BFS to the fixpoint of the canonical state space plus all raw histories of length <=2 (thorough <=3); every transition's outcome must equal the script's outcome in a pristine interpreter; programs of consecutive loads must share no mutable object.",
+            "States are the canonical content of every module-level mutable object of blackbird.*; transitions are real load/loads calls of a menu of about 60 events built to collide on names (valid scripts, templates, tdm, scripts failing at every stage incl. inside includes and inside divisions, probes whose metadata/body mention leftover names, relative loads after a change of working directory, rewrites of an included file); the state also holds process-wide numeric settings. BFS to the fixpoint of the canonical state space plus all raw histories of length <=2 (thorough <=3); every transition's outcome must equal the script's outcome in a pristine interpreter; programs of consecutive loads must share no mutable object. Also: repetition histories (every event 24 times in a row, thorough 60, and 10 alternations), duplicate and nested-duplicate includes, the same functions at numerically equal arguments of different types.",
             "Each history starts from the import-time state via fork (no knowledge of the state's names needed). ANTLR caches treated as transparent (cold pristine vs warm histories agree).",
             "DESIGN.md section 5 C12"),
     "C13": ("model_checking", "explicit-state BFS over API event sequences on real program objects (replay-from-scratch), invariant checked in every state",
-            "13 programs/templates chosen for aliasing potential x 22 events (dumps, attribute reads, to_DiGraph, two template calls and a repeated one, match_template, operations on instances, 8 kinds of mutation of instances); BFS to depth 3 (thorough 5) with de-duplication on the tuple of digests; in every state: the program's digest (serialisation + deep content incl. optional keys) is unchanged, an instance changes only by mutations addressed to it, equal calls give equal instances.",
+            "13 programs/templates chosen for aliasing potential x 22 events (dumps, attribute reads, to_DiGraph, two template calls and a repeated one, match_template, operations on instances, 8 kinds of mutation of instances); BFS to depth 3 (thorough 5) with de-duplication on the tuple of digests; in every state: the program's digest (serialisation + deep content incl. optional keys) is unchanged, an instance changes only by mutations addressed to it, equal calls give equal instances. Also: the caller's own ndarray passed as an array-valued parameter (same object at every call, modified by the caller afterwards); to_DiGraph as a third observation and edits of a returned graph as an event; the digest reads the attributes before and after serialising.",
             "Digest observes programs through public attributes and dumps(). Mutations of the returned graph are not events.",
             "DESIGN.md section 5 C13"),
     "C01": ("exploration", "bounded-exhaustive enumeration of valid scripts from the shared alphabet; round trip iterated to a text fixpoint",
-            "Every script of the stated families (all single arguments x metadata variants, all ordered pairs of about 80 argument shapes in four syntactic arrangements, list keywords, mode forms, loops, tdm programs with p-arrays; thorough: triples, options x pairs, 3 statements) is loaded, serialised and re-loaded generation after generation until the text repeats; each generation must be equivalent to the previous one (exact for numbers/booleans/strings/lists/arrays, by evaluation for symbolic arguments). All generations are covered because dumps o loads is a function of the text once it repeats.",
+            "Every script of the stated families (all single arguments x metadata variants, all ordered pairs of about 80 argument shapes in four syntactic arrangements, list keywords, mode forms, loops, tdm programs with p-arrays; thorough: triples, options x pairs, 3 statements) is loaded, serialised and re-loaded generation after generation until the text repeats; each generation must be equivalent to the previous one (exact for numbers/booleans/strings/lists/arrays, by evaluation for symbolic arguments). All generations are covered because dumps o loads is a function of the text once it repeats. Also: 171 floats at and around multiples of pi / e / 1 / 1/3 / sqrt 2 / powers of ten in every position; pairs of arrays that coincide in numbers or memory image but differ in shape or element type; strings with non-ASCII, backslash, tab, comment and other line-boundary characters (also inside lists and options); parameter names that mean something to Python / SymPy; every single-argument script also through dump()/load() of one working file per worker.",
             "Trusted: the equivalence (bbv/props/equiv.py). Variables of non-tdm programs and presence of an args key are not compared.",
             "DESIGN.md section 5 C01"),
     "C08": ("model_checking", "stateless schedule exploration: every combination of symbol-set iteration orders (forced-prefix reruns) per enumerated case, vs reference model",
-            "Cases = 22 (thorough 24) polynomial/rational expression shapes (incl. tiny, many-digit and huge coefficients, repeated registers) x every ordered choice of distinct registers from {q0,q1,q3,q10} (thorough adds q2, q007) x {positional, keyword, both} x {plain, after a measurement, inside a for-loop}. For every case every resolution of the intercepted nondeterminism (iteration order of free_symbols at every site reached from blackbird code) is executed; in each the transform must list exactly the written registers and its function, applied in the listed order, must compute the written formula.",
+            "Cases = 22 (thorough 24) polynomial/rational expression shapes (incl. tiny, many-digit and huge coefficients, repeated registers) x every ordered choice of distinct registers from {q0,q1,q3,q10} (thorough adds q2, q007) x {positional, keyword, both} x {plain, after a measurement, inside a for-loop}. For every case every resolution of the intercepted nondeterminism (iteration order of free_symbols at every site reached from blackbird code) is executed; in each the transform must list exactly the written registers and its function, applied in the listed order, must compute the written formula. Also: declared variables whose names contain register look-alikes; several register arguments over different register sets in one statement; post-selected measurements of the same modes before the statement; scaled factored differences raised to the 5th / 7th power evaluated next to their root.",
             "The seam is in SymPy (Basic.free_symbols), installed by the harness; sets of ints are deterministic in CPython and not choice points.",
             "DESIGN.md section 5 C08"),
     "C19": ("model_checking", "stateless schedule exploration of symbol-set iteration orders per pipeline stage + one real interpreter per PYTHONHASHSEED of a seed cover",
-            "For each of 21 scripts (several overlapping parameter names / registers in one argument, parameters in keywords, arrays and variables, tdm, loops, includes on 2-3 modes in non-increasing set order) and each stage (load, dumps, template call, to_DiGraph, match_template, second generation) every combination of iteration orders at every symbol-set iteration reached from blackbird code is executed and must give one observation; the whole menu is also run in fresh interpreters under hash seeds added until every k! order of every name group (as str and as Symbol) has been realised; all must agree.",
+            "For each of 21 scripts (several overlapping parameter names / registers in one argument, parameters in keywords, arrays and variables, tdm, loops, includes on 2-3 modes in non-increasing set order) and each stage (load, dumps, template call, to_DiGraph, match_template, second generation) every combination of iteration orders at every symbol-set iteration reached from blackbird code is executed and must give one observation; the whole menu is also run in fresh interpreters under hash seeds added until every k! order of every name group (as str and as Symbol) has been realised; all must agree. Also: the processes rotate over 5 working directories (two hold other programs under the relative names that file scripts include), import the package before changing directory, go through the menu in a different rotation each, and repeat dumps / instantiation / a refused call on the same objects.",
             "Observation = canonical content (register lists normalised, function re-paired) + serialised text. Seam in SymPy free_symbols; other set sites are covered only by the real seed cover.",
             "DESIGN.md section 5 C19"),
     "C09": ("exploration", "bounded-exhaustive enumeration of API-built programs over a value alphabet (kind x edge value x position) with serialise/re-load differential",
-            "Programs are assembled through the Python API from a value alphabet of about 150 values (every supported kind, edge values such as negative zero, subnormals, 1e+-300, int64 extremes, overlapping parameter names) in every position (positional, keyword, target option, type option), all ordered pairs, lists x lists, mode lists as ints and np.int64, with/without args keys, pairs of arrays x metadata variants (hoisting/numbering). dumps must succeed, the text must load, and the result must be equivalent (arrays bit-exact incl. sign of zero).",
+            "Programs are assembled through the Python API from a value alphabet of about 150 values (every supported kind, edge values such as negative zero, subnormals, 1e+-300, int64 extremes, overlapping parameter names) in every position (positional, keyword, target option, type option), all ordered pairs, lists x lists, mode lists as ints and np.int64, with/without args keys, pairs of arrays x metadata variants (hoisting/numbering). dumps must succeed, the text must load, and the result must be equivalent (arrays bit-exact incl. sign of zero). Also: 342 near-special floats and 32 strings (other line-boundary characters, tabs, backslashes, non-ASCII, token look-alikes) singly in every position; non-contiguous and same-image-different-dtype arrays; the full target x type grid for programs with arrays; dump()/load() of one working file per worker.",
             "Operations carry both or neither of args/kwargs; strings quote-free. Three recorded findings (empty list, functions of parameters, arrays in metadata options).",
             "DESIGN.md section 5 C09"),
     "C15": ("exploration", "bounded-exhaustive enumeration of tdm scripts (p-array name x type x shape x usage x neighbouring features) vs reference model + round trip",
-            "Every tdm script of the stated families (p0/p1/p12 arrays of every element type and shape in every usage, non-p look-alike names, scalars named p0, p-arrays next to every ordinary variable kind, template parameters and loops, also with another type and without type) is loaded and compared with the reference model (argument delivered as the name, variables keep the array, no p-name among the parameters, is_template iff a {} parameter was written), then serialised and re-loaded (p-arrays exact, references and operations preserved).",
+            "Every tdm script of the stated families (p0/p1/p12 arrays of every element type and shape in every usage, non-p look-alike names, scalars named p0, p-arrays next to every ordinary variable kind, template parameters and loops, also with another type and without type) is loaded and compared with the reference model (argument delivered as the name, variables keep the array, no p-name among the parameters, is_template iff a {} parameter was written), then serialised and re-loaded (p-arrays exact, references and operations preserved). Also: p-array element values (many-digit and near-special doubles, range ends; float and complex), whole-array-template p-arrays, twins of p-arrays, tdm programs with includes.",
             "Extra hoisted variables after re-load not compared.",
             "DESIGN.md section 5 C15"),
     "C04": ("exploration", "bounded-exhaustive enumeration of template scripts x value assignments, differential against textual substitution",
-            "Template scripts = slot x expression form x parameter-name set (incl. overlapping and p-like names), arrays with a bare parameter at every subset of positions, whole-array parameters; for every assignment of values from each class to the parameters, loads(S)(**v) is compared operation by operation and variable by variable with loads(S[{p} := (repr v)]); reported parameters, is_template, absence of parameters in the instance and ValueError on a missing value are checked for every case.",
+            "Template scripts = slot x expression form x parameter-name set (incl. overlapping and p-like names), arrays with a bare parameter at every subset of positions, whole-array parameters; for every assignment of values from each class to the parameters, loads(S)(**v) is compared operation by operation and variable by variable with loads(S[{p} := (repr v)]); reported parameters, is_template, absence of parameters in the instance and ValueError on a missing value are checked for every case. Also: 13 name pairs that mean something to Python / SymPy (found F31/F32); array-valued parameter values handed over as list / tuple / ndarray / Fortran-ordered / transposed / reversed / strided views; integer values next to non-integer literal elements.",
             "dtype of instantiated arrays and int-vs-float kind not compared; absolute slack 1e-12*(1+max|v|)^3 keeps cancelling cases (excluded by the property) silent. One recorded finding (functions of parameters).",
             "DESIGN.md section 5 C04"),
     "C16": ("exploration", "exhaustive enumeration of ALL programs of n operations over a finite operation alphabet, vs reference reachability + all topological orders",
-            "All sequences of n operations (n<=3 over the full 72-variant alphabet incl. register dependencies in positional/keyword position and with/without args key; register-free to n=5, thorough n=4 full / n=6) are converted with the real to_DiGraph; node set and attributes, edge direction, reachability against the reference wire relation, and (n<=5) every topological order are checked; plus two-statement scripts loaded from text so the transforms are the parser's own.",
+            "All sequences of n operations (n<=3 over the full 72-variant alphabet incl. register dependencies in positional/keyword position and with/without args key; register-free to n=5, thorough n=4 full / n=6) are converted with the real to_DiGraph; node set and attributes, edge direction, reachability against the reference wire relation, and (n<=5) every topological order are checked; plus two-statement scripts loaded from text so the transforms are the parser's own. Also: keyword arguments named like node fields (modes, args, kwargs, op); long programs (9-33, thorough 65 operations) with ALL placements of 2-3 operations on one watched wire; ALL call sequences of <= 3 (thorough 4) steps over graph / instantiate / match / dumps / append / re-mode on three scripts.",
             "Reference relation: share a mode or measured register, closed under increasing chains.",
             "DESIGN.md section 5 C16"),
     "C17": ("exploration", "bounded-exhaustive enumeration of templates x value classes x ALL linear extensions x all single structural edits, with a brute-force reference for edit verdicts",
-            "Templates of 1-3 (thorough 4) operations over 3 modes with affine single-parameter arguments and repeated parameters; for each, the instance and every reordering that preserves per-mode order must match, return exactly the template parameters and reproduce the arguments on re-instantiation; every single structural edit must raise TemplateError unless a brute-force bijection search shows the edited program is still an instance.",
+            "Templates of 1-3 (thorough 4) operations over 3 modes with affine single-parameter arguments and repeated parameters; for each, the instance and every reordering that preserves per-mode order must match, return exactly the template parameters and reproduce the arguments on re-instantiation; every single structural edit must raise TemplateError unless a brute-force bijection search shows the edited program is still an instance. Also: 23 parameter names that mean something to SymPy / Python; operations with two arguments (constant before / after the parametrised one); negative generic and integer value classes; a 2-mode deep-structure family with gates on either side of the repeated name.",
             "Arguments compared to 1e-9 relative; value class rotated per template (all classes on parameter-repeating templates).",
             "DESIGN.md section 5 C17"),
     "C18": ("exploration", "bounded-exhaustive metamorphic enumeration of layout edits at every site x global styles, gated by the g4-derived reference tokenizer",
-            "For 8 base scripts (per-line mixed indentation included) covering every rule that mentions NEWLINE or TAB: every single layout edit at every site (spaces 1-3 at each intra-line token boundary and line end, trailing comments, inserted blank / space-only / comment lines outside array bodies) x global styles (LF/CRLF/CR, tab vs four spaces, final newline or not), lines before the metadata, and (thorough) all pairs of line edits on short bases; the loaded program's exact canonical digest must equal the base's.",
+            "For 8 base scripts (per-line mixed indentation included) covering every rule that mentions NEWLINE or TAB: every single layout edit at every site (spaces 1-3 at each intra-line token boundary and line end, trailing comments, inserted blank / space-only / comment lines outside array bodies) x global styles (LF/CRLF/CR, tab vs four spaces, final newline or not), lines before the metadata, and (thorough) all pairs of line edits on short bases; the loaded program's exact canonical digest must equal the base's. Also: 15 comment texts (trailing backslash, quotes, statements, keywords, non-ASCII, other line-boundary characters); comment/blank headers of exactly n characters around 2048 / 4096 / 8192 up to 20000; a base ending in an array; the file interface for the style, header and own-line-comment variants.",
             "Spacing edits are used only when the reference tokenizer confirms an unchanged token sequence. One recorded finding (line directly after a for header).",
             "DESIGN.md section 5 C18"),
     # id: (category, technique, text, note, design_ref)
